@@ -316,6 +316,60 @@ pub fn run(ctx: &Ctx, rep: &mut Report) {
             }
         }
     }
+    // many bytes outside the alphabet in one string: their number at and around the points where
+    // an 8/16/24-bit tally of rejected bytes would wrap to zero (8 and 16 bits in the quick tier; 2^32 in the thorough tier, one
+    // shard of the std build), as one block, alone, or alternating with valid characters
+    if !mon::is_noalloc() {
+        let mut idx4 = 0u64;
+        let mut counts: Vec<usize> = vec![255, 256, 257, 511, 512, 768, 65_535, 65_536, 65_537, 131_072, 196_608, 262_144];
+        if ctx.thorough() {
+            counts.extend_from_slice(&[1 << 24, (1 << 24) + 1, 1 << 25, 3 << 24]);
+        }
+        for m in counts {
+            for layout in 0..4 {
+                if !ctx.mine(idx4) {
+                    idx4 += 1;
+                    continue;
+                }
+                idx4 += 1;
+                let bad = *r.pick(&EDGE_INVALID);
+                let s: Vec<u8> = match layout {
+                    0 => vec![bad; m],
+                    1 => {
+                        let mut v: Vec<u8> = (0..r.usize(1, 40)).map(|_| *r.pick(armor::ALPHABET)).collect();
+                        v.extend(std::iter::repeat(bad).take(m));
+                        v.extend((0..r.usize(1, 40)).map(|_| *r.pick(armor::ALPHABET)));
+                        v
+                    }
+                    2 => (0..2 * m).map(|i| if i % 2 == 0 { bad } else { b'w' }).collect(),
+                    _ => {
+                        // different invalid bytes, valid characters sprinkled in between
+                        let mut v = Vec::with_capacity(m + m / 7 + 1);
+                        for i in 0..m {
+                            v.push(EDGE_INVALID[i % EDGE_INVALID.len()]);
+                            if i % 7 == 3 {
+                                v.push(b'0');
+                            }
+                        }
+                        v
+                    }
+                };
+                check(rep, &s, if layout == 1 { 2 } else { 0 }, "many-invalid");
+                rep.class(format!("many-invalid|{}|layout{}", m, layout));
+            }
+        }
+        if ctx.thorough() && mon::CFG == "std" && ctx.shard == 1 % ctx.nshards {
+            mon::allow(1usize << 32);
+            let s = vec![b'~'; 1usize << 32];
+            rep.eval();
+            rep.class("many-invalid|2^32|layout0".into());
+            match mon::guard(|| ais::messages::unarmor(&s, 0).is_ok()) {
+                Err(pi) => rep.violation(PID, format!("panic@{}", pi.loc), pi.msg.clone(), || J::s("unarmor of 2^32 bytes outside the alphabet")),
+                Ok(true) => rep.violation(PID, "invalid-accepted:many".into(), "a string of 2^32 bytes outside the armoring alphabet was unarmored to a value".into(), || J::s("unarmor(&[b'~'; 1 << 32], 0)")),
+                Ok(false) => rep.count("expect_err"),
+            }
+        }
+    }
     // std build, one shard: all-'w' strings so long that a signed 32-bit *bit* offset overflows
     // (2^31 bits = 357 913 942 characters; 0.6 GiB of memory), and in the thorough tier also an
     // unsigned one (2^32 bits) and a signed 32-bit *character* index (2^31 characters, 4 GiB).
